@@ -95,9 +95,9 @@ DoneOnlyIfEnded == done => ~topen
 \* ---- the cases executed on the real code: (kind, location, cause) and what must be observed ----
 Kinds == {"pub1", "pub2", "sub", "unsub", "ping", "connect", "disconnect", "rconnect", "rdisconnect"}
 LocsOf(k) == CASE k = "pub2" -> {"atRLock", "waitAck", "waitComp"}
-               [] k \in {"pub1", "sub", "unsub", "ping"} -> {"atRLock", "waitAck"}
+               [] k \in {"pub1", "sub", "unsub", "ping"} -> {"atRLock", "waitAck", "handlerBusy"}
                [] k = "connect" -> {"waitConnack"}
-               [] k = "disconnect" -> {"atRLock"}
+               [] k = "disconnect" -> {"atRLock", "handlerBusy", "fromHandler"}
                [] k = "rconnect" -> {"dialFailing", "waitConnack"}
                [] OTHER -> {"loopDialing", "loopConnected"}
 Causes == {"ctxCancel", "ctxDeadline", "localClose", "peerClose", "malformed"}
@@ -105,9 +105,15 @@ Applicable(k, l, cause) ==
   /\ (k = "rdisconnect" => cause = "none")
   /\ (k = "rconnect" => cause \in {"ctxCancel", "ctxDeadline"})
   /\ (l = "atRLock" => cause \in {"ctxCancel", "ctxDeadline", "localClose", "peerClose"})
+  \* while the application's handler keeps the reader goroutine busy no acknowledgement is dispatched and
+  \* Done() cannot be closed: a waiting call is released by its context only; Disconnect itself does not
+  \* wait for the reader (it writes DISCONNECT and closes the transport)
+  /\ (l \in {"handlerBusy", "fromHandler"} => cause \in {"ctxCancel", "ctxDeadline"})
 Cases == {[k |-> k, l |-> l, cause |-> cause,
            \* what the statement demands: the call returns; with which error class; is Done() closed afterwards
-           cls |-> CASE cause = "ctxCancel" -> "canceled" [] cause = "ctxDeadline" -> "deadline" [] cause = "none" -> "any" [] OTHER -> "error",
+           \* (Disconnect has no waiting location of its own besides the lock: with the handler busy it simply returns)
+           cls |-> CASE k = "disconnect" /\ l \in {"handlerBusy", "fromHandler"} -> "any"
+                     [] cause = "ctxCancel" -> "canceled" [] cause = "ctxDeadline" -> "deadline" [] cause = "none" -> "any" [] OTHER -> "error",
            done |-> cause \in {"localClose", "peerClose", "malformed"}] :
           k \in Kinds, l \in UNION {LocsOf(x) : x \in Kinds}, cause \in Causes \cup {"none"}}
 CaseSet == {x \in Cases : x.l \in LocsOf(x.k) /\ Applicable(x.k, x.l, x.cause) /\ (x.cause = "none" <=> x.k = "rdisconnect")}
